@@ -11,3 +11,33 @@ Print Assumptions C10_fold_fwd.
 Theorem C10_fold_bwd : forall (atom : Type) (aux : atom -> Prop) (F : Type) (fsat : interp atom -> interp atom -> F -> Prop), (forall (H T H' T' : interp atom) (f : F), agree_base atom aux H H' -> agree_base atom aux T T' -> fsat H T f <-> fsat H' T' f) -> (forall (H T : interp atom) (f : F), subi atom H T -> fsat H T f -> fsat T T f) -> forall (Hd : Type) (hsat : interp atom -> interp atom -> Hd -> Prop), (forall (H T H' T' : interp atom) (h : Hd), agree_base atom aux H H' -> agree_base atom aux T T' -> hsat H T h <-> hsat H' T' h) -> forall (P : rule F Hd -> Prop) (Q : trule atom F Hd -> Prop), (forall (a : atom) (beta : list F), Q (TDef atom F Hd a beta) -> aux a) -> (forall (h : Hd) (a : atom) (rest : list F), Q (TFolded atom F Hd h a rest) -> aux a) -> (forall (h : Hd) (a : atom) (rest beta : list F), Q (TFolded atom F Hd h a rest) -> defs atom F Hd Q a beta -> P {| hd := h; bd := beta ++ rest |}) -> (forall r : rule F Hd, Q (TPlain atom F Hd r) -> P r) -> (forall r : rule F Hd, P r -> Q (TPlain atom F Hd r) \/ (exists (a : atom) (beta rest : list F), bd F Hd r = beta ++ rest /\ defs atom F Hd Q a beta /\ Q (TFolded atom F Hd (hd F Hd r) a rest))) -> forall T' : interp atom, stableQ atom F fsat Hd hsat Q T' -> stableP atom F fsat Hd hsat P (restrict atom aux T') /\ (forall a : atom, T' a <-> ext atom aux F fsat Hd Q (restrict atom aux T') (restrict atom aux T') a).
 Proof. exact (@Fold.fold_bwd). Qed.
 Print Assumptions C10_fold_bwd.
+
+From NGO Require Import Sem.Sym Sem.Sat Link.Equiv Link.SymmetrySem Link.DuplicationSem.
+
+Theorem C10_fold_existing_sound : forall (sym_lt : Ast.sym -> Ast.sym -> Prop) (aux : string) (ts : list string) (r : string -> string) (P1 P2 P3 : Ast.program) (l0 line : nat) (h : Ast.head) (New Rest B : list Ast.bodyelem), let p := (aux, Datatypes.length ts) in let D := Ast.SRule l0 (Ast.HLit (Ast.Lit Ast.NoSign (Ast.ASym (Ast.TFun aux (map Ast.TVar ts) false)))) New in let Q := P1 ++ (D :: nil) ++ P2 ++ (Ast.SRule line h B :: nil) ++ P3 in let Q' := P1 ++ (D :: nil) ++ P2 ++ (Ast.SRule line h (Rest ++ Ast.BLit (Ast.Lit Ast.NoSign (Ast.ASym (Ast.TFun aux (map Ast.TVar (map r ts)) false))) :: nil) :: nil) ++ P3 in Ground.simple_prog Q = true -> heads_avoid p (P1 ++ P2 ++ (Ast.SRule line h B :: nil) ++ P3) = true -> Permutation B (map (ren_bodyelem r) New ++ Rest) -> (forall x : string, In x (flat_map Ast.vars_bodyelem New) -> In x ts) -> equiv_on sym_lt (fun q : Ast.pred => q <> p) Q Q'.
+Proof. exact (@DuplicationSem.fold_existing_sound). Qed.
+Print Assumptions C10_fold_existing_sound.
+
+Theorem C10_cons_ext_equiv_on : forall (sym_lt : Ast.sym -> Ast.sym -> Prop) (IN : string * nat -> Prop) (V : gatom -> Prop) (P Q Q' : Ast.program), cons_ext sym_lt IN V P Q -> equiv_on sym_lt IN Q Q' -> cons_ext sym_lt IN V P Q'.
+Proof. exact (@DuplicationSem.cons_ext_equiv_on). Qed.
+Print Assumptions C10_cons_ext_equiv_on.
+
+Theorem C10_duplication_step_sound : forall (sym_lt : Ast.sym -> Ast.sym -> Prop) (aux : string) (ts : list string) (l0 : nat) (New : list Ast.bodyelem) (items : list item) (Q1 Q2 : Ast.program), let p := (aux, Datatypes.length ts) in let auxl := fun xs : list string => Ast.Lit Ast.NoSign (Ast.ASym (Ast.TFun aux (map Ast.TVar xs) false)) in let P := map i_src items in let Q := Q1 ++ (Ast.SRule l0 (Ast.HLit (auxl ts)) New :: nil) ++ Q2 in Q1 ++ Q2 = map i_tgt items -> (exists o : occ, In (inr o) items) -> (forall o : occ, In (inr o) items -> Permutation (o_B o) (map (ren_bodyelem (o_r o)) New ++ o_rest o) /\ Permutation (o_B' o) (o_rest o ++ Ast.BLit (auxl (map (o_r o) ts)) :: nil)) -> Ground.simple_prog P = true -> ProjectionSem.prog_avoids p P = true -> (forall x : string, In x (flat_map Ast.vars_bodyelem New) -> In x ts) -> cons_ext sym_lt (fun q : string * nat => q <> p) (fun a : gatom => ~ (fst a = aux /\ Datatypes.length (snd a) = Datatypes.length ts)) P Q.
+Proof. exact (@DuplicationSem.duplication_step_sound). Qed.
+Print Assumptions C10_duplication_step_sound.
+
+Theorem C10_fold_missing_variable_refuted : forall sym_lt : Ast.sym -> Ast.sym -> Prop, let p := ("__aux_1", 1) in let New := Ast.BLit (ModelExamples.at_ "a" ("X" :: "Y" :: nil)) :: nil in let Rest := Ast.BLit (ModelExamples.at_ "b" ("Y" :: nil)) :: nil in Ground.simple_prog (Refutations.dA :: Refutations.ruA :: nil) = true /\ heads_avoid p (Refutations.ruA :: nil) = true /\ Permutation (Ast.BLit (ModelExamples.at_ "a" ("X" :: "Y" :: nil)) :: Ast.BLit (ModelExamples.at_ "b" ("Y" :: nil)) :: nil) (map (ren_bodyelem (fun x : string => x)) New ++ Rest) /\ facts_over (fun q : string * nat => q <> p) Refutations.IA /\ ~ (forall x : string, In x (flat_map Ast.vars_bodyelem New) -> In x ("X" :: nil)) /\ stable sym_lt (Refutations.dA :: Refutations.ruA :: nil) Refutations.IA Refutations.TA /\ ~ stable sym_lt (Refutations.dA :: Refutations.rfA :: nil) Refutations.IA Refutations.TA /\ ~ equiv_on sym_lt (fun q : Ast.pred => q <> p) (Refutations.dA :: Refutations.ruA :: nil) (Refutations.dA :: Refutations.rfA :: nil).
+Proof. exact (@DuplicationSem.Refutations.fold_missing_variable_refuted). Qed.
+Print Assumptions C10_fold_missing_variable_refuted.
+
+Theorem C10_fold_aux_fact_refuted : forall sym_lt : Ast.sym -> Ast.sym -> Prop, stable sym_lt (Refutations.dB :: Refutations.ruB :: nil) Refutations.IB Refutations.TB /\ ~ stable sym_lt (Refutations.dB :: Refutations.rfB :: nil) Refutations.IB Refutations.TB /\ ~ equiv_all sym_lt (Refutations.dB :: Refutations.ruB :: nil) (Refutations.dB :: Refutations.rfB :: nil).
+Proof. exact (@DuplicationSem.Refutations.fold_aux_fact_refuted). Qed.
+Print Assumptions C10_fold_aux_fact_refuted.
+
+Theorem C10_exA_pass_sound : forall sym_lt : Ast.sym -> Ast.sym -> Prop, exists Q : list Ast.stmt, Duplication.execute ModelExamples.exA_in nil = Ast.Ok Q /\ cons_ext sym_lt (fun q : string * nat => q <> ("__aux_1", 1)) (fun a : gatom => ~ (fst a = "__aux_1" /\ Datatypes.length (snd a) = 1)) ModelExamples.exA_in Q.
+Proof. exact (@DuplicationSem.ModelExamples.exA_pass_sound). Qed.
+Print Assumptions C10_exA_pass_sound.
+
+Theorem C10_exB_anonymous_variable_refuted : forall sym_lt : Ast.sym -> Ast.sym -> Prop, ~ cons_ext sym_lt (fun q : string * nat => q <> ("__aux_1", 1)) (fun a : gatom => ~ (fst a = "__aux_1" /\ Datatypes.length (snd a) = 1)) ModelExamples.exB_in ModelExamples.exB_out.
+Proof. exact (@DuplicationSem.ModelExamples.exB_anonymous_variable_refuted). Qed.
+Print Assumptions C10_exB_anonymous_variable_refuted.
